@@ -180,13 +180,14 @@ class WFile:
         self.internal = {}                    # feat -> tokens
         self.defs = []                        # dicts (see make_def)
         self.path = None
+        self.shift = 0                        # changed when the file is replaced by other content
 
     def tokens(self):
-        return [20 * self.idx + j for j in range(N_EV)]
+        return [20 * self.idx + self.shift + j for j in range(N_EV)]
 
 
 def describe_world(files):
-    return tuple((f.idx, f.dir, f.rid, f.flavour, tuple(f.innate), tuple(sorted(f.maps.items())) and
+    return tuple((f.idx, f.dir, f.rid, f.flavour, f.shift, tuple(f.innate), tuple(sorted(f.maps.items())) and
                   tuple((k, tuple(v)) for k, v in sorted(f.maps.items())),
                   tuple((d["type"], d["format"], tuple(d["locs"]), tuple(d["feats"] or ("*",)),
                          d["map"]) for d in f.defs)) for f in files)
@@ -424,6 +425,8 @@ class World:
             (self.root / "ld0").symlink_to("d0", target_is_directory=True)
         for f in self.files:
             f.path = self.path_of(f)
+            if f.path.exists():
+                os.unlink(f.path)        # replaced, not truncated (handles may still be open)
             gen.make_rtdc(f.path, f.tokens(), feats=[KEEP] + f.innate, rid=f.rid)
             with dclab.RTDCWriter(f.path, mode="append") as hw:
                 for k, m in sorted(f.maps.items()):
@@ -668,6 +671,7 @@ def check_world(ctx, env, world, roots, label):
         replay = {"world": label, "root": root_idx, "remote": remote,
                   "roots": [list(r) for r in roots[:step + 1]],
                   "files": [{"idx": x.idx, "dir": x.dir, "rid": x.rid, "flavour": x.flavour,
+                             "shift": x.shift,
                              "innate": x.innate,
                              "maps": {str(k): v for k, v in x.maps.items()},
                              "internal": x.internal,
@@ -801,6 +805,25 @@ def run(ctx):
             lines, expect = check_world(ctx, env, world, root, label)
             all_lines += ml + lines
             all_expect += [None] * len(ml) + expect
+            if label.startswith("rand") and ctx.rng.random() < 0.3 and not getattr(ctx, "hung", False):
+                # mutable file world: one file is replaced in place by another measurement (other
+                # identifier / flavour, other data), then referrers are opened again in this
+                # process; the model is re-run on the new world
+                victim = ctx.rng.choice(files)
+                victim.rid = rand_rid(ctx.rng, "mixed")
+                victim.flavour = ctx.rng.choice(FLAVOURS)
+                victim.shift = 10
+                try:
+                    world.write()
+                except Exception as e:  # noqa
+                    ctx.note(f"C14: could not rewrite world {label}: {e!r}"[:200])
+                else:
+                    ctx.stat("history:file-replaced")
+                    ml = world.model_lines()
+                    lines, expect = check_world(ctx, env, world,
+                                                random_roots(ctx.rng, files)[:3], label + "+replaced")
+                    all_lines += ml + lines
+                    all_expect += [None] * len(ml) + expect
             for f in files:
                 env.ses.blobs.pop(world.url_of(f), None)
             shutil.rmtree(world.root, ignore_errors=True)
@@ -879,6 +902,7 @@ def replay(ctx, data):
     files = []
     for x in rp["files"]:
         f = WFile(x["idx"], x["dir"], x["rid"], x["innate"], x.get("flavour", "vlen"))
+        f.shift = x.get("shift", 0)
         f.maps = {int(k): v for k, v in x["maps"].items()}
         f.internal = x["internal"]
         f.defs = [dict(d, locs=[tuple(z) for z in d["locs"]]) for d in x["defs"]]
